@@ -937,10 +937,25 @@ class SamplingMethod(DirectMethod):
                                                                DT=DT,
                                                                DT_control=DT_control))
 
+    def horizon_guesses_first(self, stage, initial):
+        """Order guesses such that those for the horizon come first (the start value of a FreeTime
+        variable itself, then what the user set on ocp.T/ocp.t0): guesses given as expressions of
+        time are evaluated on the grid they imply, whatever the order of the set_initial calls."""
+        def rank(k):
+            if (isinstance(stage._T, MX) and is_equal(k, stage._T)) or (isinstance(stage._t0, MX) and is_equal(k, stage._t0)):
+                return 0
+            if is_equal(k, stage.T) or is_equal(k, stage.t0):
+                return 1
+            return 2
+        ret = HashOrderedDict()
+        for k, v in sorted(initial.items(), key=lambda kv: rank(kv[0])):
+            ret[k] = v
+        return ret
+
     def set_initial(self, stage, master, initial):
         opti = master.opti if hasattr(master, 'opti') else master
         opti.cache_advanced()
-        initial = HashOrderedDict(initial)
+        initial = self.horizon_guesses_first(stage, initial)
         algs = get_ranges_dict(stage.algebraics)
         initial_alg = HashDict()
         for a, v in list(initial.items()):
